@@ -28,8 +28,7 @@ JP = "accelforge/mapper/FFM/_join_pmappings/join_pmappings.py"
 MP = "accelforge/mapper/FFM/_make_pmappings/make_pmappings.py"
 
 
-def _a1(ctx):
-    R = "C14-A1"
+def _a1(ctx, R="C14-A1"):
     ctx.doc(R, "threshold sequences end exact")
     ms = ctx.func(JP, "multi_strategy_join", R)
     defs = single_defs(ms.node, ms.params())
@@ -101,8 +100,7 @@ def _a2_a4(ctx):
     ctx.check(ok, R, js, first if isinstance(first, ast.stmt) else h, "the handler does not re-raise on the last round: a failing exact join falls back to a dirty result (or to an unbound variable)", "re-raise on the last round")
 
 
-def _a3(ctx):
-    R = "C14-A3"
+def _a3(ctx, R="C14-A3"):
     ctx.doc(R, "early return only through the for-else of the oversubscription scan; tolerance set on every group before each round")
     ms = ctx.func(JP, "multi_strategy_join", R)
     cfg = ctx.cfg(ms)
